@@ -130,6 +130,11 @@ def check_release(program, rep):
     n_del = 0
     n_exc = 0
     bad = {}
+    loop_leaves = set()
+    for lp in ast.walk(f.node):
+        if isinstance(lp, ast.While):
+            for x in ast.walk(lp.test):
+                loop_leaves.add(id(x))
 
     def flag(rule, node, why):
         bad.setdefault(rule, (node, why))
@@ -155,7 +160,7 @@ def check_release(program, rep):
                     val_truth = e.extra
                     if e.extra and stored_val:
                         enabled_known = True
-                if isinstance(e.node, ast.AST) and (QUEUE in t):
+                if id(e.node) in loop_leaves:
                     loop_tests += 1
             if e.kind == 'for' and QUEUE in e.sym.text:
                 flag('release', e.node.iter,
